@@ -64,8 +64,17 @@ func PanicKind(r interface{}) string {
 	return "explicit"
 }
 
-// Frame returns the innermost stack frame inside /repo (file:function), for finding signatures.
+// RepoRoot is the directory of the go-ruleguard tree the harness was built against: $VERIF_REPO, else /repo.
+func RepoRoot() string {
+	if d := os.Getenv("VERIF_REPO"); d != "" {
+		return strings.TrimSuffix(d, "/")
+	}
+	return "/repo"
+}
+
+// Frame returns the innermost stack frame inside the repo (file:function), for finding signatures.
 func Frame(stack []byte) string {
+	root := RepoRoot() + "/"
 	lines := strings.Split(string(stack), "\n")
 	start := 0
 	for i, l := range lines { // a deferred function that re-panics hides the origin: start after the last panic()
@@ -75,7 +84,7 @@ func Frame(stack []byte) string {
 	}
 	for i := start; i+1 < len(lines); i++ {
 		l := strings.TrimSpace(lines[i+1])
-		if strings.HasPrefix(l, "/repo/") && !strings.Contains(l, "verif_hooks") {
+		if strings.HasPrefix(l, root) && !strings.Contains(l, "verif_hooks") {
 			fn := strings.TrimSpace(lines[i])
 			if j := strings.LastIndex(fn, "("); j > 0 {
 				fn = fn[:j]
@@ -90,7 +99,7 @@ func Frame(stack []byte) string {
 			if j := strings.LastIndex(file, ":"); j > 0 {
 				file = file[:j]
 			}
-			return strings.TrimPrefix(file, "/repo/") + ":" + fn
+			return strings.TrimPrefix(file, root) + ":" + fn
 		}
 	}
 	return "?"
